@@ -13,7 +13,7 @@ RULE = ('argument strings drawn per character from weighted classes (plain, ok-p
         'tilde/colon-rich strings and the weighted classes; command lines as word lists, string-form lines starting two processes, mixtures, via '
         'cmd= and cmds= of real command()/build_step() edges and local_env for tests; system stage: generated projects whose yacc steps '
         'have MIXED shapes (default two outputs, two named outputs, one named output, in drawn order), the whole argument vector of '
-        'every translator process compared with the declared one (options, --defines= of the second output, source, -o, first output)')
+        'every translator process compared with the declared one (options, --defines= of the second output, source, -o, first output)' + '; system stage: generated projects with static libraries whose link_options= are forwarded (also through libs= of static libraries) to 5-6 consumers declared one after the other - the linker process of each compared with the declared closure of exactly that target (no missing, foreign or repeated word, each archive once) -, path-valued flag words (include / library directories, words joined from a string and a file, names with # $ blank @ + { ^, global and per target, source directory named with # and $), copies / symbolic / hard links between directories in near-prefix families (data / data2, lib / lib64, a / a.b) with the copying tools recorded: what a tool is handed, read from the directory of the link, names the input (path arithmetic and the real ln + readlink -f)')
 TRUSTED = ('R model Ninja/NinjaRead.v (lexer, $in/$out escaping) + Ninja/NinjaManifest.v (manifest structure, scoping, lookup order of '
            'command_of) is TRUSTED: no ninja binary exists in this sandbox; written from the Ninja manual / manifest_parser.cc / '
            'lexer.in.cc / eval_env.cc / graph.cc / util.cc; documented deviations are listed at the top of NinjaManifest.v and guarded at run time',
